@@ -241,13 +241,13 @@ func TestC14RowBoundary(t *testing.T) {
 		m := &regMachine{model: map[int]*conn{}, loop: rapid.IntRange(0, 255).Draw(t, "loop")}
 		m.cm.init()
 		base := rapid.IntRange(3, 1000).Draw(t, "base")
-		n := 65536*rapid.SampledFrom([]int{1, 1, 1, 2}).Draw(t, "rows") + rapid.SampledFrom([]int{-2, -1, 0, 1, 1, 1, 2, 100, 4000}).Draw(t, "over")
+		n := 65536*rapid.SampledFrom([]int{1, 1, 1, 2}).Draw(t, "rows") + rapid.SampledFrom([]int{-2, -1, 0, 1, 1, 1, 2, 3, 100, 4000}).Draw(t, "over")
 		m.logf("bulk add %d fds from %d", n, base)
 		for i := 0; i < n; i++ {
 			m.add(base + i)
 		}
 		m.invariant(t, false)
-		steps := rapid.IntRange(3, 12).Draw(t, "steps")
+		steps := rapid.IntRange(3, 40).Draw(t, "steps") // the population walks around the row boundary
 		for s := 0; s < steps; s++ {
 			switch rapid.SampledFrom([]string{"delLast", "delFirst", "delNearBoundary", "delRandom", "add", "add", "add", "add"}).Draw(t, "op") {
 			case "delLast":
